@@ -137,7 +137,7 @@ def phase_random(run, pool, budget_s, n_max=None):
         while n_max is None or i < n_max:
             rs = P.derive_seed(run.seed, run.prop, run.tier, i)
             yield {"id": i, "kind": "seed", "property": run.prop, "run_seed": rs, "tier": run.tier,
-                   "want_program": (i % 50 == 0), "deadline": 90}
+                   "want_program": (i % 50 == 0), "deadline": 240}
             i += 1
 
     t = time.time()
@@ -162,7 +162,7 @@ def phase_xproc(run, n, hashseeds=("1", "77")):
                 digs.setdefault(job["id"], {})[hs] = (res.get("status"), res.get("events_digest"),
                                                       res.get("results_digest"), job["run_seed"])
             jobs = ({"id": i, "kind": "seed", "property": run.prop, "tier": run.tier, "want_program": False,
-                     "run_seed": P.derive_seed(run.seed, run.prop, run.tier, i), "deadline": 90} for i in range(n))
+                     "run_seed": P.derive_seed(run.seed, run.prop, run.tier, i), "deadline": 240} for i in range(n))
             pool.run(jobs, on)
     mism = []
     compared = 0
@@ -212,7 +212,7 @@ def phase_fresh(run, n):
         for i in range(n):
             rs = P.derive_seed(run.seed, run.prop, run.tier, i * 7)
             a = pool.run_one({"id": i, "kind": "seed", "property": run.prop, "run_seed": rs, "tier": run.tier,
-                              "deadline": 90})
+                              "deadline": 240})
             b = fresh_interpreter_run(rs, run.prop, hashseed=str(1000 + i), tier=run.tier)
             if a.get("status") in ("env_crash", ) or b.get("status") == "harness_error":
                 continue
@@ -263,6 +263,12 @@ def finalize_violation(run, pool, job, res, known):
         if not same:
             json.dump(rec, open(path, "w"), indent=1, default=str)
             return "harness", "nondeterministic replay (%s): %s" % (viol["invariant"], path)
+        if viol["invariant"] == "I-INPUT":
+            # diagnostic only: same history with the caller's arrays read-only names the mutating line
+            ro = dict(prog)
+            ro["readonly"] = True
+            rr = fresh_interpreter_run(ro, run.prop)
+            rec["mutating_line_readonly_rerun"] = rr.get("culprits")
     json.dump(rec, open(path, "w"), indent=1, default=str)
     return "violation", path
 
